@@ -37,6 +37,7 @@ type FuncSpec struct {
 	AssignGlobals []string
 	Loops     map[string]*LoopSpec
 	Inline    bool
+	GhostLogs [][2]string
 	Pure      bool
 	OpaqueFns []string
 	Trusted   bool
